@@ -163,7 +163,10 @@ class Interp:
     def deref(self, v):
         if isinstance(v, LazyContainer):
             if v.resolved is None:
-                raise Unsupported(f"{v.kind} literal used before its type is known")
+                ty = self.model.default_container_type(self, v) if hasattr(self.model, "default_container_type") else None
+                if ty is None:
+                    raise Unsupported(f"{v.kind} literal used before its type is known")
+                return self.path.resolve_lazy(v, ty)
             return v.resolved
         return v
 
@@ -186,6 +189,8 @@ class Interp:
             return len(v) > 0
         if isinstance(v, ConcreteSeq):
             return len(v.items) > 0
+        if isinstance(v, ExcValue):
+            return True        # exception instances define neither __bool__ nor __len__
         if isinstance(v, SV):
             ty = v.ty
             if isinstance(ty, _TBool):
@@ -766,6 +771,9 @@ class Interp:
                     raise Unsupported(f"cannot havoc loop variable '{name}' (declare var_types)")
             if ty == "poison":
                 env[name] = Poison(name, "assigned in loop body")
+                continue
+            if callable(ty) and not hasattr(ty, "sort"):
+                env[name] = ty(self)          # an arbitrary runtime value chosen by the contract (may fork the path)
                 continue
             env[name] = p.fresh_sv(ty, "lv_" + name)
         for m in spec.modifies:
